@@ -1,6 +1,6 @@
 """Every run proves that the zero-expected-count rule families can fire: the positive
 fixtures (fixtures/positive) must be reported, their guarded twins must not."""
-from .families import check_casts, check_panics, check_allocs, check_recursion, guard_flow
+from .families import check_casts, check_panics, check_allocs, check_recursion, guard_flow, check_self_compare, bodies_of_fn
 from .core import callee_names
 
 
@@ -60,6 +60,15 @@ def run(ctx):
             ctx.ok('SELFTEST', 'REC:' + path, 'as expected')
         else:
             ctx.bad('SELFTEST', 'REC:' + path, 'REC gave %s, expected %s' % (sorted(got), want), key='ENGINE:selftest:REC:%s' % path)
+    # SELFCMP (the comparison sits in the then_with closure: the function's closures are scanned with it)
+    for path, want in (('posfix::bad_selfcmp', 'bad'), ('posfix::good_selfcmp', 'ok')):
+        pr = _Probe()
+        n = sum(check_self_compare(pr, B, 'x') for B in bodies_of_fn(PX, path))
+        got = {v for v, _ in pr.v}
+        if n >= 2 and ((want == 'bad' and 'bad' in got) or (want == 'ok' and not got)):
+            ctx.ok('SELFTEST', 'SELFCMP:' + path, 'as expected (%d comparisons scanned)' % n)
+        else:
+            ctx.bad('SELFTEST', 'SELFCMP:' + path, 'SELFCMP gave %s over %d comparisons, expected %s' % (sorted(got), n, want), key='ENGINE:selftest:SELFCMP:%s' % path)
     # LOCK
     for path, want in (('posfix::Counter::bad_unlocked', False), ('posfix::Counter::good_locked', True)):
         B = PX.B(path)
